@@ -10,3 +10,4 @@ CONSTANTS
   SchemaLossy = TRUE
   WithFail = TRUE
   Salts = {1}
+  Pres = {"none", "hop"}
